@@ -132,6 +132,30 @@ func (c *C04Write) Run() string {
 			}
 			copy(want, S.arr.E)
 			lerr = tensor.Copy(t, S.b.T)
+		case "CopyToInto":
+			// Dense.CopyTo with the view as the DESTINATION: refused for views on the pinned tree ("not yet
+			// implemented"); whatever it does, it writes nothing outside the view
+			src := Opnd{Shape: cloneInts(c.A.Shape), Codes: make([]int64, n), L: Layout{Root: "rm"}}
+			for k := range src.Codes {
+				src.Codes[k] = 31 + (c.Code+int64(k))%29
+			}
+			var m string
+			if S, m = buildOpnd(&src, d); m != "" {
+				msg = m
+				return
+			}
+			if lerr = S.b.T.CopyTo(t); lerr != nil {
+				rec.Class("copyto:refused")
+				lerr = nil
+				copy(want, A.arr.E) // refused: nothing changed
+			} else {
+				// CopyTo copies the underlying data and does not care about the destination's metadata (its
+				// documentation): which coordinate gets which element is only defined for plain destinations.
+				// What is asserted for every destination: the elements outside it stay as they are.
+				rec.Class("copyto:accepted")
+				now := readAll(t)
+				copy(want, now)
+			}
 		case "UnsafeAdd", "CopyInto":
 			var m string
 			if S, m = buildOpnd(c.Src, d); m != "" {
@@ -483,7 +507,7 @@ var c04SrcKinds = []string{"contig", "sliced", "stepsliced", "lazyT", "slicedT",
 var c04DTs = []DT{dtInt8, dtBool, dtInt16, dtF32, dtF64, dtC128, dtStr, dtUint32}
 
 func TestC04(t *testing.T) {
-	writes := []string{"Memset", "Zero", "SetAtSweep", "UnsafeNeg", "UnsafeAdd", "UnsafeAddScalar", "CopyInto", "CopyIntoFlat", "CopyCross", "ApplyUnsafe", "RootSetAt"}
+	writes := []string{"Memset", "Zero", "SetAtSweep", "UnsafeNeg", "UnsafeAdd", "UnsafeAddScalar", "CopyInto", "CopyIntoFlat", "CopyToInto", "CopyCross", "ApplyUnsafe", "RootSetAt"}
 	for _, w := range writes {
 		for _, vk := range c04ViewKinds {
 			w, vk := w, vk
